@@ -400,7 +400,7 @@ func init() {
 			only := int(p.Cfg.Extra["only"]) - 1
 			for i := 0; i < 60; i++ {
 				op := genUpdate(r, pf, 0, 2)
-				if op.M == "unknownlog" || op.M == "crosslog" || op.M == "xsig_unknown" {
+				if op.M == "unknownlog" || op.M == "crosslog" || op.M == "xsig_unknown" || op.M == "prime_other" {
 					op.M = ""
 				}
 				req := resolveUpdate(w, op, tracked)
